@@ -44,12 +44,26 @@ UNIVERSE = [
 def gen_unit(rng):
     n = rng.choice((0, 1, 2, 3, 5, 8, 13, 21, 40))
     pool = rng.sample(UNIVERSE, rng.choice((2, 3, 5, 8, len(UNIVERSE))))
-    mode = rng.choice(["plain", "plain", "select1", "select2", "wrapped", "computed", "dupname", "sorted"])
+    mode = rng.choice(["plain", "plain", "select1", "select2", "wrapped", "computed", "dupname", "sorted", "context"])
+    if mode == "context":
+        # the row also holds something that is not a function of the input value alone (its place in the input, the record it
+        # was split from): equal inputs then give different rows, and only equal ROWS are duplicates
+        items = [rng.choice(pool)[0] for _ in range(n)]
+        args = rng.choice([["--select", ".=v", "--select", "&index=i"], ["--select", ".=v", "--select", "(% &index 2)=p"],
+                           ["--select", "(% &index-in-file 3)=p", "--select", ".=v"],
+                           ["--split-by", "(push (push [] .) .)", "--select", ".=v", "--select", "(% &index 2)=p"],
+                           ["--set", "one=1", "--select", ".=v", "--select", "(% (+ &index :one) 2)=p"]])
+        wrapped = ['{"l":[%s,%s],"t":%d}' % (a, b, rng.randint(0, 1)) for a, b in zip(items, items[1:] + items[:1])]
+        if rng.random() < 0.4 and n:
+            return {"input": "\n".join(wrapped).encode("utf-8"), "args": ["--split-by", ".l", "--select", ".=v", "--select", "^.t=t"], "mode": mode}
+        return {"input": rng.choice(["\n", " "]).join(items).encode("utf-8"), "args": args, "mode": mode}
     if mode == "computed":
         # the selected value is computed: results that print alike (10 from 10.3 and from 10) are duplicates
-        nums = ["10.3", "10", "10.4", "-2.5", "-3", "6.5", "7", "7.0", "10.6", "11", "0", "0.4", "-0.4", "1e1", "2.5", "3", "-3.0", "6", "1e15", "999999999999999.6"]
+        nums = ["10.3", "10", "10.4", "-2.5", "-3", "6.5", "7", "7.0", "10.6", "11", "0", "0.4", "-0.4", "1e1", "2.5", "3", "-3.0", "6", "1e15", "999999999999999.6", "-4", "4", "-10", "-6.0"]
         f = rng.choice(["(round .x)", "(floor .x)", "(ceil .x)", "(abs .x)", "(+ .x 0)", "(* .x 1)", "(- (- .x))", "(/ .x 1)", "(% .x 100)", "(round (/ .x 2))",
-                        "(size (range (% (abs (round .x)) 50)))", "(sum (push [] .x))", "(as_number .x)", "(default .nothing (floor .x))"])
+                        "(size (range (% (abs (round .x)) 50)))", "(sum (push [] .x))", "(as_number .x)", "(default .nothing (floor .x))",
+                        # zero reached from both sides
+                        "(% .x 2)", "(% .x 1)", "(% (round .x) 5)", "(- .x .x)", "(% .x -2)"])
         items = ['{"x":%s,"z":%d}' % (rng.choice(nums), rng.randint(0, 1000)) for _ in range(n)]
         return {"input": rng.choice(["\n", " "]).join(items).encode("utf-8"), "args": ["--select", f + "=x"], "mode": mode}
     items = []
